@@ -105,7 +105,6 @@ func (p *Prog) VerifyFunc(fn *ssa.Function, fc *FuncContract, cf *ContractFile, 
 				}
 			}
 		}
-		vc.collectModel("arg_"+prm.Name(), v)
 	}
 	if len(fn.FreeVars) > 0 {
 		for _, fv := range fn.FreeVars {
@@ -114,6 +113,7 @@ func (p *Prog) VerifyFunc(fn *ssa.Function, fc *FuncContract, cf *ContractFile, 
 		}
 	}
 	vc.assumeLemmas(st)
+	vc.buildReplay(fn, fr.params, st)
 	fr.entry = st.clone()
 	reach := tTrue
 	// requires
